@@ -84,7 +84,11 @@ impl Scenario for PairScenario {
         let b = if rng.chance(1, 4) { f } else { gen_delay(rng) };
         let proc = rng.range(1, 3) as u8;
         // reported and actually held processing delay
-        let held = if proc == 2 && rng.chance(2, 3) { gen_delay(rng).min(65_535) } else { 0 };
+        let held = if proc == 2 && rng.chance(2, 3) {
+            gen_delay(rng).min(65_535)
+        } else {
+            0
+        };
         let reported: u64 = match rng.below(6) {
             0..=3 => held,
             4 => (held + rng.range(1, 5000)).min(65_535),
@@ -107,14 +111,25 @@ impl Scenario for PairScenario {
         let mut t_sync = 0u64;
         let abandoned = rng.chance(1, 4);
         if abandoned {
-            script.push(POp::HoldNext { to_master: true, ms: timeout + rng.range(1, 2000) });
-            script.push(POp::User(UserKind::TimeSync(if rng.chance(3, 4) { proc } else { rng.range(1, 3) as u8 })));
+            script.push(POp::HoldNext {
+                to_master: true,
+                ms: timeout + rng.range(1, 2000),
+            });
+            script.push(POp::User(UserKind::TimeSync(if rng.chance(3, 4) {
+                proc
+            } else {
+                rng.range(1, 3) as u8
+            })));
             let gap = timeout * 2 + 3000 + rng.range(0, 30_000);
             script.push(POp::Sleep(gap));
             t_sync += gap;
         }
         let need_time_stays = rng.chance(1, 10);
-        let refuse = if rng.chance(1, 12) { rng.range(1, 2) as u8 } else { 0 };
+        let refuse = if rng.chance(1, 12) {
+            rng.range(1, 2) as u8
+        } else {
+            0
+        };
         script.push(POp::ProcessingDelay(reported as u16));
         if need_time_stays {
             script.push(POp::NeedTime(true));
@@ -123,7 +138,10 @@ impl Scenario for PairScenario {
             script.push(POp::TimeWriteResult(refuse));
         }
         if held > 0 {
-            script.push(POp::HoldNext { to_master: true, ms: held });
+            script.push(POp::HoldNext {
+                to_master: true,
+                ms: held,
+            });
         }
         script.push(POp::User(UserKind::TimeSync(proc)));
         script.push(POp::Sleep(timeout * 2 + 2000));
@@ -166,7 +184,10 @@ fn class(d: u64) -> u64 {
     }
 }
 
-pub fn analyse_pair(case: &PairCase, run: &PairRun) -> (Option<Violation>, bool, u64, Vec<(String, u64)>) {
+pub fn analyse_pair(
+    case: &PairCase,
+    run: &PairRun,
+) -> (Option<Violation>, bool, u64, Vec<(String, u64)>) {
     let mut counters: BTreeMap<String, u64> = BTreeMap::new();
     let mut bump = |k: &str| *counters.entry(k.to_string()).or_insert(0) += 1;
     let (f, b) = case.latency;
@@ -188,19 +209,36 @@ pub fn analyse_pair(case: &PairCase, run: &PairRun) -> (Option<Violation>, bool,
             POp::ProcessingDelay(p) => reported = *p as u64,
             POp::NeedTime(x) => need_time = *x,
             POp::TimeWriteResult(k) => refuse = *k,
-            POp::HoldNext { to_master: true, ms } => hold_armed = *ms,
+            POp::HoldNext {
+                to_master: true,
+                ms,
+            } => hold_armed = *ms,
             POp::Cut { .. } | POp::Stall { .. } | POp::Disable => faults_before = true,
             POp::User(UserKind::TimeSync(proc)) => {
                 let id = user_no;
                 user_no += 1;
                 let held = std::mem::take(&mut hold_armed);
-                let t_submit = run.op_marks.iter().find(|m| m.0 == i).map(|m| m.1).unwrap_or(0);
+                let t_submit = run
+                    .op_marks
+                    .iter()
+                    .find(|m| m.0 == i)
+                    .map(|m| m.1)
+                    .unwrap_or(0);
                 let done = run.master_log.iter().find_map(|(t, _, ev)| match ev {
-                    MEv::UserDone { id: x, ok, outcome } if *x == id => Some((*t, *ok, outcome.clone())),
+                    MEv::UserDone { id: x, ok, outcome } if *x == id => {
+                        Some((*t, *ok, outcome.clone()))
+                    }
                     _ => None,
                 });
                 let Some((t_done, ok, outcome)) = done else {
-                    violation.get_or_insert(Violation::new("C18/time-sync-never-completed", "", format!("time synchronisation {} submitted at {} ms had no outcome", id, t_submit)));
+                    violation.get_or_insert(Violation::new(
+                        "C18/time-sync-never-completed",
+                        "",
+                        format!(
+                            "time synchronisation {} submitted at {} ms had no outcome",
+                            id, t_submit
+                        ),
+                    ));
                     continue;
                 };
                 // what the outstation application was told in the meantime
@@ -212,7 +250,15 @@ pub fn analyse_pair(case: &PairCase, run: &PairRun) -> (Option<Violation>, bool,
                         _ => None,
                     })
                     .collect();
-                fp = mix(&[fp, *proc as u64, class(f), class(b), class(held), (reported != held) as u64, ok as u64]);
+                fp = mix(&[
+                    fp,
+                    *proc as u64,
+                    class(f),
+                    class(b),
+                    class(held),
+                    (reported != held) as u64,
+                    ok as u64,
+                ]);
                 if f != b || reported > 0 {
                     nontrivial = true;
                 }
@@ -274,7 +320,14 @@ pub fn analyse_pair(case: &PairCase, run: &PairRun) -> (Option<Violation>, bool,
                         ));
                     }
                     if ts > MAX48 {
-                        violation.get_or_insert(Violation::new("C18/time-beyond-48-bits", "", format!("procedure {}: wrote {} which does not fit 48 bits", proc, ts)));
+                        violation.get_or_insert(Violation::new(
+                            "C18/time-beyond-48-bits",
+                            "",
+                            format!(
+                                "procedure {}: wrote {} which does not fit 48 bits",
+                                proc, ts
+                            ),
+                        ));
                     }
                 } else {
                     bump("probe.reported_failure");
@@ -288,7 +341,12 @@ pub fn analyse_pair(case: &PairCase, run: &PairRun) -> (Option<Violation>, bool,
                         _ => m0 + t_submit + 2 <= MAX48,
                     };
                     let first_attempt_clean = !faults_before && rtt < timeout;
-                    let expected_ok = first_attempt_clean && !need_time && refuse == 0 && !(*proc == 2 && reported + 1 >= rtt) && fits && run.connections == 1;
+                    let expected_ok = first_attempt_clean
+                        && !need_time
+                        && refuse == 0
+                        && !(*proc == 2 && reported + 1 >= rtt)
+                        && fits
+                        && run.connections == 1;
                     // an earlier abandoned attempt leaves a late reply in the stream: it arrives during this attempt and is ignored,
                     // but (for a READ-less task) nothing else changes - still expected to succeed unless it is still in flight
                     let earlier_hold_in_flight = id > 0;
@@ -333,7 +391,12 @@ impl Scenario for ScriptedScenario {
     }
 
     fn real_components(&self) -> Vec<&'static str> {
-        vec!["master::tasks::time::TimeSyncTask", "master::task::MasterTask / MasterSession", "tcp::client::ClientTask", "transport::real, link, app::parse"]
+        vec![
+            "master::tasks::time::TimeSyncTask",
+            "master::task::MasterTask / MasterSession",
+            "tcp::client::ClientTask",
+            "transport::real, link, app::parse",
+        ]
     }
 
     fn stub_components(&self) -> Vec<&'static str> {
@@ -343,20 +406,44 @@ impl Scenario for ScriptedScenario {
     fn generate(&self, rng: &mut Rng, _tier: Tier) -> SmastCase {
         let mut cfg = MasterCfg::basic();
         let f = gen_delay(rng).min(20_000);
-        let b = if rng.bool() { f } else { gen_delay(rng).min(20_000) };
-        let p = if rng.bool() { gen_delay(rng).min(20_000) } else { 0 };
+        let b = if rng.bool() {
+            f
+        } else {
+            gen_delay(rng).min(20_000)
+        };
+        let p = if rng.bool() {
+            gen_delay(rng).min(20_000)
+        } else {
+            0
+        };
         let mut a = AssocCfg::quiet(1024);
         a.response_timeout_ms = f + b + p + *rng.pick(&[1000u64, 4000]);
         cfg.assocs = vec![a];
-        cfg.wall_clock_base = if rng.chance(1, 4) { MAX48 - rng.range(0, 3 * (f + b + p) + 100) } else { 1_700_000_000_000 };
+        cfg.wall_clock_base = if rng.chance(1, 4) {
+            MAX48 - rng.range(0, 3 * (f + b + p) + 100)
+        } else {
+            1_700_000_000_000
+        };
         let mut script = vec![MOp::Enable, MOp::Sleep(1)];
         let rounds = rng.urange(1, 3);
         for _ in 0..rounds {
             let proc = rng.range(1, 3) as u8;
             let honest = rng.chance(3, 4);
-            script.push(MOp::ProcessingDelay { assoc: 0, ms: if honest { p as u16 } else { (f + b + p + rng.range(1, 2000)).min(65_535) as u16 }, honest });
+            script.push(MOp::ProcessingDelay {
+                assoc: 0,
+                ms: if honest {
+                    p as u16
+                } else {
+                    (f + b + p + rng.range(1, 2000)).min(65_535) as u16
+                },
+                honest,
+            });
             if rng.chance(1, 8) {
-                script.push(MOp::SetIin { assoc: 0, iin1: 0x10, iin2: 0 });
+                script.push(MOp::SetIin {
+                    assoc: 0,
+                    iin1: 0x10,
+                    iin2: 0,
+                });
                 script.push(MOp::StickyNeedTime(rng.bool()));
             }
             let nrep = *rng.pick(&[0usize, 0, 1, 2]);
@@ -366,7 +453,11 @@ impl Scenario for ScriptedScenario {
                     0 => Reply::Faithful,
                     1 => Reply::StaleThenFaithful(rng.range(1, 15) as u8),
                     2 => Reply::ForeignThenFaithful(1025),
-                    3 => Reply::UnsolThenFaithful { seq: rng.below(16) as u8, data: rng.bool(), con: rng.bool() },
+                    3 => Reply::UnsolThenFaithful {
+                        seq: rng.below(16) as u8,
+                        data: rng.bool(),
+                        con: rng.bool(),
+                    },
                     4 => Reply::Objects(vec![50, 1, 0x07, 1, 1, 2, 3, 4, 5, 6]),
                     5 => Reply::Silent,
                     6 => Reply::Iin(0, 0x04),
@@ -376,10 +467,18 @@ impl Scenario for ScriptedScenario {
             if !replies.is_empty() {
                 script.push(MOp::Replies { assoc: 0, replies });
             }
-            script.push(MOp::User { assoc: 0, kind: UserKind::TimeSync(proc) });
+            script.push(MOp::User {
+                assoc: 0,
+                kind: UserKind::TimeSync(proc),
+            });
             if rng.chance(1, 3) {
                 script.push(MOp::Sleep(rng.range(0, f + b + p + 10)));
-                script.push(MOp::Unsol { assoc: 0, seq: rng.below(16) as u8, data: rng.bool(), con: rng.bool() });
+                script.push(MOp::Unsol {
+                    assoc: 0,
+                    seq: rng.below(16) as u8,
+                    data: rng.bool(),
+                    con: rng.bool(),
+                });
             }
             script.push(MOp::Sleep(3 * (f + b + p) + 10_000));
         }
@@ -402,7 +501,10 @@ impl Scenario for ScriptedScenario {
     }
 }
 
-pub fn analyse_scripted(case: &SmastCase, run: &MastRun) -> (Option<Violation>, bool, u64, Vec<(String, u64)>) {
+pub fn analyse_scripted(
+    case: &SmastCase,
+    run: &MastRun,
+) -> (Option<Violation>, bool, u64, Vec<(String, u64)>) {
     let hist = master_time_history(case, run);
     let mut counters: BTreeMap<String, u64> = BTreeMap::new();
     let mut bump = |k: &str| *counters.entry(k.to_string()).or_insert(0) += 1;
@@ -423,16 +525,33 @@ pub fn analyse_scripted(case: &SmastCase, run: &MastRun) -> (Option<Violation>, 
                 honest = *h;
             }
             MOp::StickyNeedTime(x) => need_time_sticky = *x,
-            MOp::User { kind: UserKind::TimeSync(proc), .. } => {
+            MOp::User {
+                kind: UserKind::TimeSync(proc),
+                ..
+            } => {
                 let id = user_no;
                 user_no += 1;
-                let t_submit = run.op_marks.iter().find(|m| m.0 == i).map(|m| m.1).unwrap_or(0);
+                let t_submit = run
+                    .op_marks
+                    .iter()
+                    .find(|m| m.0 == i)
+                    .map(|m| m.1)
+                    .unwrap_or(0);
                 let done = hist.iter().find_map(|(_, h)| match h {
-                    H::UserDone { t, id: x, ok, outcome } if *x == id => Some((*t, *ok, outcome.clone())),
+                    H::UserDone {
+                        t,
+                        id: x,
+                        ok,
+                        outcome,
+                    } if *x == id => Some((*t, *ok, outcome.clone())),
                     _ => None,
                 });
                 let Some((t_done, ok, _outcome)) = done else {
-                    violation.get_or_insert(Violation::new("C18/time-sync-never-completed", "scripted", format!("time synchronisation {} had no outcome", id)));
+                    violation.get_or_insert(Violation::new(
+                        "C18/time-sync-never-completed",
+                        "scripted",
+                        format!("time synchronisation {} had no outcome", id),
+                    ));
                     continue;
                 };
                 // what the scripted outstation answered to the requests of this synchronisation
@@ -447,7 +566,15 @@ pub fn analyse_scripted(case: &SmastCase, run: &MastRun) -> (Option<Violation>, 
                         let answers: Vec<(bool, String)> = hist
                             .iter()
                             .filter_map(|(_, x)| match x {
-                                H::PeerTx { answers, valid, kind, t: ta, .. } if *answers == Some(*order) && *ta <= t_done => Some((*valid, kind.clone())),
+                                H::PeerTx {
+                                    answers,
+                                    valid,
+                                    kind,
+                                    t: ta,
+                                    ..
+                                } if *answers == Some(*order) && *ta <= t_done => {
+                                    Some((*valid, kind.clone()))
+                                }
                                 _ => None,
                             })
                             .collect();
@@ -463,9 +590,21 @@ pub fn analyse_scripted(case: &SmastCase, run: &MastRun) -> (Option<Violation>, 
                 if deviated {
                     nontrivial = true;
                 }
-                fp = mix(&[fp, *proc as u64, ok as u64, used.len() as u64, deviated as u64, honest as u64]);
+                fp = mix(&[
+                    fp,
+                    *proc as u64,
+                    ok as u64,
+                    used.len() as u64,
+                    deviated as u64,
+                    honest as u64,
+                ]);
                 // what was written to the scripted outstation during this request: (virtual ms at the outstation, value, variation)
-                let written: Vec<(u64, u64, u8)> = run.time_written.iter().filter(|w| w.0 >= t_submit && w.0 <= t_done).cloned().collect();
+                let written: Vec<(u64, u64, u8)> = run
+                    .time_written
+                    .iter()
+                    .filter(|w| w.0 >= t_submit && w.0 <= t_done)
+                    .cloned()
+                    .collect();
                 let must_fail = unanswered || (need_time_sticky && run.need_time_was_set);
                 if ok {
                     bump("probe.reported_success");
@@ -477,20 +616,37 @@ pub fn analyse_scripted(case: &SmastCase, run: &MastRun) -> (Option<Violation>, 
                         ));
                     }
                     let Some((t_w, value, var)) = written.last().copied() else {
-                        violation.get_or_insert(Violation::new("C18/success-without-time-written", "scripted", format!("procedure {} reported success but no time was written", proc)));
+                        violation.get_or_insert(Violation::new(
+                            "C18/success-without-time-written",
+                            "scripted",
+                            format!(
+                                "procedure {} reported success but no time was written",
+                                proc
+                            ),
+                        ));
                         continue;
                     };
                     // the outstation's resulting clock at the moment of the write
                     let clock = if var == 3 {
                         // last recorded time: the outstation adds what elapsed since it received RECORD_CURRENT_TIME
-                        let recorded = run.recorded_at.iter().rev().find(|r| **r <= t_w).copied().unwrap_or(t_w);
+                        let recorded = run
+                            .recorded_at
+                            .iter()
+                            .rev()
+                            .find(|r| **r <= t_w)
+                            .copied()
+                            .unwrap_or(t_w);
                         value + (t_w - recorded)
                     } else {
                         value
                     };
                     let truth = m0 + t_w;
                     if truth <= MAX48 {
-                        let err = if clock > truth { clock - truth } else { truth - clock };
+                        let err = if clock > truth {
+                            clock - truth
+                        } else {
+                            truth - clock
+                        };
                         let bound = match proc {
                             1 | 3 => Some(f + 1),
                             _ => {
